@@ -260,6 +260,84 @@ func c06(r *core.Report) {
 
 	c06Mirror(r, "C06.mirror")
 
+	r.RunRule("C06.absent", "an absent property stays absent: in the body decoders of package openapi3filter, a value obtained from the styled-value decoder (decodeProperty / decodeValue / a valueDecoder method) is stored into the decoded object under a property name only where it is known to be non-nil (or the decoder reported it found); storing the nil of an absent form field makes the validator see `null`, and a body that merely omits an optional property is rejected", 1, func() {
+		n := 0
+		for _, d := range p.AllDecls("openapi3filter") {
+			ff := core.NewFuncFacts(p, info, d)
+			perFn := 0
+			ast.Inspect(d.Body, func(nd ast.Node) bool {
+				as, ok := nd.(*ast.AssignStmt)
+				if !ok || len(as.Lhs) != 1 || len(as.Rhs) != 1 {
+					return true
+				}
+				ix, ok := ast.Unparen(as.Lhs[0]).(*ast.IndexExpr)
+				if !ok {
+					return true
+				}
+				mt, isMap := info.TypeOf(ix.X).Underlying().(*types.Map)
+				if !isMap {
+					return true
+				}
+				if it, ok := mt.Elem().Underlying().(*types.Interface); !ok || !it.Empty() {
+					return true
+				}
+				vid, ok := ast.Unparen(as.Rhs[0]).(*ast.Ident)
+				if !ok {
+					return true
+				}
+				vo := info.ObjectOf(vid)
+				// the stored variable is result 0 of a decode call
+				var foundObj types.Object
+				fromDecode := false
+				for _, a := range ff.Assigns(vo) {
+					if a.Call == nil || a.Idx != 0 {
+						continue
+					}
+					callee := core.CalleeOf(info, a.Call)
+					if callee == nil {
+						continue
+					}
+					if callee.Name() == "decodeProperty" || callee.Name() == "decodeValue" || strings.HasPrefix(callee.Name(), "Decode") {
+						fromDecode = true
+						if st, ok := a.Stmt.(*ast.AssignStmt); ok && len(st.Lhs) >= 2 {
+							if fid, ok := st.Lhs[1].(*ast.Ident); ok && fid.Name != "_" {
+								foundObj = info.ObjectOf(fid)
+							}
+						}
+					}
+				}
+				if !fromDecode {
+					return true
+				}
+				n++
+				perFn++
+				key := fmt.Sprintf("absent:%s#%d", core.FuncName(d), perFn)
+				guarded := false
+				for _, a := range core.Atoms(core.GuardsAt(info, d.Body, as)) {
+					switch x := ast.Unparen(a.Expr).(type) {
+					case *ast.BinaryExpr:
+						if core.IsNil(info, x.Y) {
+							if id, ok := ast.Unparen(x.X).(*ast.Ident); ok && info.ObjectOf(id) == vo {
+								if (x.Op == token.NEQ && a.Pos) || (x.Op == token.EQL && !a.Pos) {
+									guarded = true
+								}
+							}
+						}
+					case *ast.Ident:
+						if foundObj != nil && info.ObjectOf(x) == foundObj && a.Pos {
+							guarded = true
+						}
+					}
+				}
+				r.Check(guarded, key, p.Pos(as.Pos()), "stored only when a value was decoded", fmt.Sprintf("%s stores the decoder's result under the property name without knowing that a value was present: an absent form field becomes `null` in the decoded object and an optional, non-nullable property is rejected", core.FuncName(d)))
+				return true
+			})
+		}
+		if n == 0 {
+			core.Fail("no store of a decoded property value found (decodeSchemaConstructs expected)")
+		}
+	})
+
 	r.RunRule("C06.wire", "filter options reach the schema validator unchanged in meaning on the request side", 8, func() {
 		checkWiring(r, "ValidateRequestBody", []wiringRow{
 			{"VisitAsRequest", "", true},
